@@ -42,7 +42,7 @@ def to_number(number):
     if isinstance(number, string_types) and NUMERIC_TEXT.match(number):
         text = number.strip()
         if text.lstrip('+-').isdigit():
-            if len(text) > MAX_WHOLE_DIGITS + 1:
+            if len(text.lstrip('+-').lstrip('0')) > MAX_WHOLE_DIGITS:  # (leading zeros spell no larger a number)
                 # like "1e999": it spells no number a sheet can hold, it stays text (and reading
                 # ten million digits takes minutes: a 188-character formula of nested SUBSTITUTEs writes them)
                 return number
